@@ -9,7 +9,8 @@ P = "NakenVerif.Core.Driver."
 THEOREMS = [P + n for n in [
     "assemble_first_failure", "assemble_zero_flag_clear", "assemble_zero_no_failure",
     "if_taken_error_propagates", "if_else_error_propagates", "if_missing_endif_is_error",
-    "if_bad_condition_is_error", "if_missing_endif_after_else_is_error", "include_error_propagates",
+    "if_bad_condition_is_error", "if_missing_endif_after_else_is_error", "if_unterminated_taken_is_error",
+    "if_second_else_is_error", "if_ok_means_closed", "include_error_propagates",
     "repeat_error_propagates", "dir_error_fails_enclosing", "main_status_iff", "main_status_01",
     "main_success_writes", "main_no_output_on_error", "main_unopenable_output", "reported_error_reaches_exit"]]
 RULE = ("valid programs of every CPU in the statement corpus (instructions, data, labels, define/macro/if/repeat/equ) "
